@@ -1,6 +1,6 @@
 (* C04 — issued tokens never exceed what was granted or what the client may ask for.
    Statements only; proofs are in Proofs/ScopeProofs.v and Proofs/C04Proofs.v. *)
-From Verif Require Import Base Scope Types Prog Pop Token Authorize System Config Run Monitors OneShot ScopeProofs Hoare C04Proofs C04More.
+From Verif Require Import Base Scope Types Prog Pop Token Authorize System Config Run Monitors OneShot ScopeProofs Hoare C04Proofs C04More C04Resources.
 Local Open Scope N_scope.
 
 (* A requested scope string is allowed for a client iff it is empty or every space-separated
@@ -66,3 +66,67 @@ Theorem authorize_types_registered : forall cfg p c,
   (is_empty (p_scopes p) = false -> are_scopes_allowed (c_scopes c) (cf_scopes cfg) (p_scopes p) = true).
 Proof. exact validate_params_types. Qed.
 Print Assumptions authorize_types_registered.
+
+(* ---- resource indicators (RFC 8707) ---- *)
+
+(* In every state reachable by any history of operations (any configuration, any clients, any
+   interleaving of authorization_code, implicit, CIBA, client_credentials and refresh chains of any
+   length), the resources the current token of every stored grant is for - the `aud` of a JWT access
+   token, the `aud` introspection reports - are among the resources the grant was given. *)
+Theorem resources_within_grant : forall w dyn ops g,
+  In g (st_gsess (s_store (fst (run_from w (init_state dyn) 0 ops)))) ->
+  forall x, In x (g_active_res g) -> In x (g_granted_res g).
+Proof. exact resources_within_grant_in. Qed.
+Print Assumptions resources_within_grant.
+
+(* For every store and token request: authorization_code and CIBA yield tokens only if every requested
+   resource is among those the resource owner granted to the session (an empty grant allows nothing),
+   the grant written records exactly the session's granted resources and, as the token's resources,
+   the requested ones (all granted ones when none is named); a refresh only if the requested
+   resources are among the grant's granted ones, which it leaves untouched; client_credentials (no
+   resource owner) only if they are among the server's configured resources.  With the feature off
+   the `resource` parameter is ignored and nothing is recorded. *)
+Theorem resources_decision : forall w n now r st,
+  (is_tokens (snd (run_seq (code_grant w n now r) st)) = true ->
+   exists s g,
+     find (fun s => ideq (a_code s) (t_code r)) (st_asess st) = Some s /\
+     st_gsess (fst (run_seq (code_grant w n now r) st)) = put_gsess g (st_gsess st) /\
+     (cf_resource_enabled (w_cfg w) = true ->
+        (forall x, In x (t_resources r) -> In x (a_granted_res s)) /\ g_granted_res g = a_granted_res s /\
+        g_active_res g = (if no_res (t_resources r) then a_granted_res s else t_resources r)) /\
+     (cf_resource_enabled (w_cfg w) = false -> g_granted_res g = [] /\ g_active_res g = [])) /\
+  (is_tokens (snd (run_seq (ciba_grant w n now r) st)) = true ->
+   exists s g,
+     find (fun s => ideq (a_ciba s) (t_auth_req r)) (st_asess st) = Some s /\
+     st_gsess (fst (run_seq (ciba_grant w n now r) st)) = put_gsess g (st_gsess st) /\
+     (cf_resource_enabled (w_cfg w) = true ->
+        (forall x, In x (t_resources r) -> In x (a_granted_res s)) /\ g_granted_res g = a_granted_res s /\
+        g_active_res g = (if no_res (t_resources r) then a_granted_res s else t_resources r)) /\
+     (cf_resource_enabled (w_cfg w) = false -> g_granted_res g = [] /\ g_active_res g = [])) /\
+  (forall t, snd (run_seq (refresh_grant w n now r) st) = OTokens t ->
+   exists g g',
+     find (fun g => ideq (g_refresh g) (t_refresh r)) (st_gsess st) = Some g /\
+     st_gsess (fst (run_seq (refresh_grant w n now r) st)) = put_gsess g' (st_gsess st) /\
+     g_id g' = g_id g /\ g_granted_res g' = g_granted_res g /\
+     (cf_resource_enabled (w_cfg w) = true ->
+        (forall x, In x (t_resources r) -> In x (g_granted_res g)) /\
+        g_active_res g' = (if no_res (t_resources r) then g_granted_res g else t_resources r)) /\
+     (cf_resource_enabled (w_cfg w) = false -> g_active_res g' = g_active_res g)) /\
+  (is_tokens (snd (run_seq (cc_grant w n now r) st)) = true ->
+   exists g,
+     st_gsess (fst (run_seq (cc_grant w n now r) st)) = put_gsess g (st_gsess st) /\
+     g_active_res g = g_granted_res g /\
+     (cf_resource_enabled (w_cfg w) = true ->
+        (forall x, In x (t_resources r) -> In x (cf_resources (w_cfg w))) /\ g_granted_res g = t_resources r) /\
+     (cf_resource_enabled (w_cfg w) = false -> g_granted_res g = [])).
+Proof. exact resources_decision_all. Qed.
+Print Assumptions resources_decision.
+
+(* what introspection reports as `aud` is the stored grant's: the token's resources for an access
+   token, the granted ones for a refresh token (hence, by resources_within_grant, never outside the grant) *)
+Theorem introspection_aud_truthful : forall now p st i,
+  snd (run_seq (introspection_info now p) st) = i -> in_active i = true ->
+  exists g, In g (st_gsess st) /\ g_id g = in_grant i /\
+            in_aud i = (if in_refresh i then g_granted_res g else g_active_res g).
+Proof. exact introspection_aud_of_grant. Qed.
+Print Assumptions introspection_aud_truthful.
